@@ -192,6 +192,13 @@ pub unsafe extern "C" fn accept(fd: c_int, addr: *mut sockaddr, len: *mut sockle
 
 unsafe fn name_query(nr: c_long, fd: c_int, addr: *mut sockaddr, len: *mut socklen_t) -> c_int {
     if crate::world::in_sim() {
+        if nr == libc::SYS_getpeername {
+            // a "connected" simulated UDP socket: the peer is kept by the world (the stand-in stays unconnected)
+            if let Some(Some(p)) = with_world(|w| w.udp_peer.get(&fd).copied()) {
+                unsafe { write_sockaddr(&p, addr, len) };
+                return 0;
+            }
+        }
         let name = if nr == libc::SYS_getpeername { sys::getpeername_un(fd) } else { sys::getsockname_un(fd) };
         match name {
             Ok(n) if n.starts_with(b"simk/") => {
@@ -315,6 +322,7 @@ fn post_io(fd: c_int, dir: Dir, req: usize, r: i64) {
 
 #[unsafe(no_mangle)]
 pub unsafe extern "C" fn send(fd: c_int, buf: *const c_void, len: size_t, flags: c_int) -> ssize_t {
+    if udp_fd(fd) { return unsafe { udp_send(fd, buf, len, flags, std::ptr::null(), 0) }; }
     let mut l = len;
     if let Some((forced, nl)) = pre_io(fd, Dir::W, len) {
         if forced < 0 { sys::set_errno(libc::EAGAIN); return -1; }
@@ -365,6 +373,7 @@ pub unsafe extern "C" fn writev(fd: c_int, iov: *const libc::iovec, cnt: c_int) 
 #[unsafe(no_mangle)]
 pub unsafe extern "C" fn recv(fd: c_int, buf: *mut c_void, len: size_t, flags: c_int) -> ssize_t {
     crate::clustersim::coop_block(fd);
+    if udp_fd(fd) { return unsafe { udp_recv(fd, buf, len, flags, std::ptr::null_mut(), std::ptr::null_mut()) }; }
     if let Some((forced, _)) = pre_io(fd, Dir::R, len) { if forced < 0 { sys::set_errno(libc::EAGAIN); return -1; } }
     let r = unsafe { sc!(libc::SYS_recvfrom, fd, buf, len, flags, 0, 0) };
     post_io(fd, Dir::R, len, r);
@@ -382,6 +391,7 @@ pub unsafe extern "C" fn read(fd: c_int, buf: *mut c_void, len: size_t) -> ssize
 #[unsafe(no_mangle)]
 pub unsafe extern "C" fn recvmsg(fd: c_int, msg: *mut libc::msghdr, flags: c_int) -> ssize_t {
     crate::clustersim::coop_block(fd);
+    if !msg.is_null() && udp_fd(fd) { return unsafe { udp_recvmsg(fd, msg, flags) }; }
     let r = unsafe { sc!(libc::SYS_recvmsg, fd, msg, flags) };
     unsafe { ret_errno(r) as ssize_t }
 }
@@ -394,4 +404,87 @@ pub unsafe extern "C" fn readv(fd: c_int, iov: *const libc::iovec, cnt: c_int) -
     let r = unsafe { sc!(libc::SYS_readv, fd, iov, cnt) };
     post_io(fd, Dir::R, total, r);
     unsafe { ret_errno(r) as ssize_t }
+}
+
+// ------------------------------------------------------------------ simulated UDP (datagram seam, C19 shell tier)
+//
+// sozu's UDP sockets are AF_UNIX SOCK_DGRAM stand-ins bound to abstract names that carry the simulated address
+// (World::on_udp_bind / on_udp_connect). The data calls translate addresses both ways: a destination sockaddr_in/in6
+// becomes the destination's abstract name, the sender's abstract name comes back as the simulated source address.
+// Everything below is a raw pass-through unless the descriptor is one of the world's simulated UDP sockets.
+
+fn udp_fd(fd: c_int) -> bool {
+    with_world(|w| w.is_udp(fd)).unwrap_or(false)
+}
+
+unsafe fn udp_send(fd: c_int, buf: *const c_void, len: size_t, flags: c_int, addr: *const sockaddr, alen: socklen_t) -> ssize_t {
+    let dst = unsafe { read_sockaddr(addr, alen) };
+    if !addr.is_null() && dst.is_none() {
+        sys::set_errno(libc::EAFNOSUPPORT);
+        return -1;
+    }
+    let data: &[u8] = if len == 0 || buf.is_null() { &[] } else { unsafe { std::slice::from_raw_parts(buf as *const u8, len) } };
+    let r = with_world(|w| w.udp_sendto(fd, data, flags, dst)).unwrap();
+    unsafe { ret_errno(r) as ssize_t }
+}
+
+unsafe fn udp_recv(fd: c_int, buf: *mut c_void, len: size_t, flags: c_int, addr: *mut sockaddr, alen: *mut socklen_t) -> ssize_t {
+    let (r, src) = with_world(|w| w.udp_recvfrom(fd, buf as *mut u8, len, flags)).unwrap();
+    if r >= 0 && !addr.is_null() && !alen.is_null() {
+        let sa: SocketAddr = src.unwrap_or_else(|| "0.0.0.0:0".parse().unwrap());
+        unsafe { write_sockaddr(&sa, addr, alen) };
+    }
+    unsafe { ret_errno(r) as ssize_t }
+}
+
+#[unsafe(no_mangle)]
+pub unsafe extern "C" fn sendto(fd: c_int, buf: *const c_void, len: size_t, flags: c_int, addr: *const sockaddr, alen: socklen_t) -> ssize_t {
+    if udp_fd(fd) { return unsafe { udp_send(fd, buf, len, flags, addr, alen) }; }
+    unsafe { ret_errno(sc!(libc::SYS_sendto, fd, buf, len, flags, addr, alen)) as ssize_t }
+}
+
+#[unsafe(no_mangle)]
+pub unsafe extern "C" fn recvfrom(fd: c_int, buf: *mut c_void, len: size_t, flags: c_int, addr: *mut sockaddr, alen: *mut socklen_t) -> ssize_t {
+    if udp_fd(fd) { return unsafe { udp_recv(fd, buf, len, flags, addr, alen) }; }
+    unsafe { ret_errno(sc!(libc::SYS_recvfrom, fd, buf, len, flags, addr, alen)) as ssize_t }
+}
+
+#[unsafe(no_mangle)]
+pub unsafe extern "C" fn sendmsg(fd: c_int, msg: *const libc::msghdr, flags: c_int) -> ssize_t {
+    if !msg.is_null() && udp_fd(fd) {
+        // one datagram: gather the vector, translate msg_name (control data is not meaningful on the stand-in)
+        let m = unsafe { &*msg };
+        let mut data: Vec<u8> = Vec::new();
+        if !m.msg_iov.is_null() {
+            for v in unsafe { std::slice::from_raw_parts(m.msg_iov, m.msg_iovlen as usize) } {
+                if v.iov_len > 0 && !v.iov_base.is_null() { data.extend_from_slice(unsafe { std::slice::from_raw_parts(v.iov_base as *const u8, v.iov_len) }); }
+            }
+        }
+        return unsafe { udp_send(fd, data.as_ptr() as *const c_void, data.len(), flags, m.msg_name as *const sockaddr, m.msg_namelen) };
+    }
+    unsafe { ret_errno(sc!(libc::SYS_sendmsg, fd, msg, flags)) as ssize_t }
+}
+
+unsafe fn udp_recvmsg(fd: c_int, msg: *mut libc::msghdr, flags: c_int) -> ssize_t {
+    let m = unsafe { &mut *msg };
+    let iov: &[libc::iovec] = if m.msg_iov.is_null() { &[] } else { unsafe { std::slice::from_raw_parts(m.msg_iov, m.msg_iovlen as usize) } };
+    let total: usize = iov.iter().map(|v| v.iov_len).sum();
+    let mut tmp = vec![0u8; total.max(1)];
+    let mut alen: socklen_t = m.msg_namelen;
+    let r = unsafe { udp_recv(fd, tmp.as_mut_ptr() as *mut c_void, total, flags, m.msg_name as *mut sockaddr, &mut alen as *mut socklen_t) };
+    if r >= 0 {
+        let mut left = (r as usize).min(total);
+        let mut off = 0usize;
+        for v in iov {
+            if left == 0 { break; }
+            let take = v.iov_len.min(left);
+            unsafe { std::ptr::copy_nonoverlapping(tmp.as_ptr().add(off), v.iov_base as *mut u8, take) };
+            off += take;
+            left -= take;
+        }
+        if !m.msg_name.is_null() { m.msg_namelen = alen; }
+        m.msg_controllen = 0;
+        m.msg_flags = 0;
+    }
+    r
 }
